@@ -174,7 +174,18 @@ def _judge(ctx, mon, fn, target, lower, upper, precision, max_iter, out, err, n_
             ctx.violation(mon, "outside_bracket", "bisect returned a point outside [lower, upper]", sig=sig, x=x, lower=lower, upper=upper)
             return
         sgn = 1.0 if direction == "increasing" else -1.0
-        fx = fn(x) * sgn
+        # bisect searches element by element: its contract presupposes that fn acts elementwise.  A caller that hands it a reduction (HedgeLoss.cash's
+        # default search passes the loss itself, which averages over the first dimension) is outside this property's domain - that call is judged by C06.
+        fx0 = fn(x)
+        if x.numel() > 1:
+            x2 = x.clone()
+            x2.reshape(-1)[0] = lob.reshape(-1)[0] if float(x.reshape(-1)[0]) != float(lob.reshape(-1)[0]) else upb.reshape(-1)[0]
+            fx2 = fn(x2)
+            if fx0.shape != x.shape or fx2.shape != fx0.shape or not torch.equal(fx2.reshape(-1)[1:], fx0.reshape(-1)[1:]):
+                ctx.ood(mon)
+                ctx.note("fn_not_elementwise:" + _origin())
+                return
+        fx = fx0 * sgn
         tg = tgt_b * sgn
         step = precision + ulp
         x_lo = torch.maximum(xb - step, lob)
